@@ -106,9 +106,9 @@ type Result struct {
 	Sc          int      `json:"sc"`
 	Tag         string   `json:"tag"`
 	Lines       []string `json:"-"`
-	StallMs     int64    `json:"stall_ms"`    // worst lateness of the harness' own 5 ms ticker
-	MaxRttMs    int64    `json:"max_rtt_ms"`  // worst round trip of a poll
-	LateMs      int64    `json:"late_ms"`     // worst lateness of a program step
+	StallMs     int64    `json:"stall_ms"`     // worst lateness of the harness' own 5 ms ticker
+	MaxRttMs    int64    `json:"max_rtt_ms"`   // worst round trip of a poll
+	LateMs      int64    `json:"late_ms"`      // worst lateness of a program step
 	ClockJumpUs int64    `json:"clockjump_us"` // wall clock against monotonic clock over the run
 	Polls       int      `json:"polls"`
 	Events      int      `json:"events"`
@@ -126,17 +126,17 @@ type Result struct {
 }
 
 type runner struct {
-	p    *Program
-	o    Options
-	base int64 // wall ns of clock 0 of the trace
-	mu   sync.Mutex
-	evs  []rawEv
-	begin   map[int]int64
-	marks   map[string]int
-	roles   map[int]int
-	cur     *absCmd            // driver command in flight
-	table   map[string]absCmd  // poll command text -> abstract command
-	nsweep  int
+	p      *Program
+	o      Options
+	base   int64 // wall ns of clock 0 of the trace
+	mu     sync.Mutex
+	evs    []rawEv
+	begin  map[int]int64
+	marks  map[string]int
+	roles  map[int]int
+	cur    *absCmd           // driver command in flight
+	table  map[string]absCmd // poll command text -> abstract command
+	nsweep int
 }
 
 func (r *runner) hook(s *server.Server, point string, args ...interface{}) {
